@@ -10,6 +10,7 @@ mod hist;
 mod rechash;
 mod rng;
 mod runner;
+mod tables;
 mod worker;
 
 use ctx::{Ctx, Tier};
